@@ -24,6 +24,10 @@ BUDGET_S = {"quick": 150, "thorough": 1500}
 PROFILE = dict(lookups=True, max_ops=10, alias_arrays=False)
 
 
+class TooBig(Exception):
+    pass
+
+
 class RecDict(dict):
     def __init__(self, *a, **k):
         dict.__init__(self, *a, **k)
@@ -41,6 +45,8 @@ class RecDict(dict):
 
     def __setitem__(self, k, v):
         self.writes.add(k)
+        if isinstance(v, (int, float)) and not isinstance(v, bool) and abs(v) > 1e30:
+            raise TooBig()              # cut runaway self-updates (x <- x**3 over several steps)
         dict.__setitem__(self, k, v)
 
     def __delitem__(self, k):
@@ -212,7 +218,7 @@ def check_case(case, collect=None):
             n += 1
             if n > 60:
                 break
-    except (B.MyError, B.OtherError):
+    except (B.MyError, B.OtherError, TooBig):
         pass
     except Exception as e:
         info["exec_error"] = "%s: %s" % (type(e).__name__, str(e)[:80])
